@@ -142,3 +142,35 @@ fx_harness! {
         core::mem::forget(t);
     }
 }
+
+fx_harness! {
+    #[kani::unwind(8)]
+    fn c18_implicit_fx_one_trade() {
+        // one USD trade: the implicit USD.FX row carries exactly its net USD cash
+        // flow (sale proceeds - commission, or -(cost + commission)); a zero net
+        // flow produces no row
+        let is_buy = ks::any_bool();
+        let sh = any_in(0, 15); let p = any_in(0, 100); let c = any_in(0, 15);
+        let mut t = FxTracker::new();
+        let r = t.add_implicit_fxt(&btx(is_buy, sh, p, c));
+        let ok = r.is_ok();
+        core::mem::forget(r);
+        assert!(ok);
+        let txs = t.get_fx_txs().ok().unwrap();
+        vcover!("tracked");
+        let gross = dec(p, 2) * dec(sh, 0);
+        let flow = if is_buy { dec(0, 0) - gross - dec(c, 2) } else { gross - dec(c, 2) };
+        if flow.is_zero() {
+            assert!(txs.is_empty());
+        } else {
+            assert!(txs.len() == 1);
+            let x = &txs[0];
+            assert!(x.num_shares == flow.abs());
+            assert!((x.action == TxAction::Buy) == !flow.is_sign_negative());
+            assert!(x.amount_per_share == dec(1, 0) && x.commission == dec(0, 0));
+            assert!(x.exchange_rate.is_none());
+            assert!(x.trade_date == date(10) && x.settlement_date == date(10));
+        }
+        core::mem::forget(t);
+    }
+}
